@@ -693,27 +693,21 @@ fn to_list(ctx: &Context, top: &Number, list: &[&str]) -> Result<Vec<NumberParts
                 unit: Number::one_unit(BaseUnit::new(name)).unit,
             };
             let pretty = raw_number.to_parts(ctx);
-            let mut unit: String = pretty
+            let unit: String = pretty
                 .unit
                 .or(pretty.dimensions)
                 .map(|x| ctx.canonicalize(&*x).unwrap_or(x))
                 .expect("to_parts returned no dimensions");
-            let mut value = pretty.approx_value.or(pretty.exact_value);
-            if ctx.lookup(&unit).is_none() {
-                // The SI prefix picked for display cannot go in front of a
-                // name that already carries one (`mm` became `millimm`,
-                // which cannot be read back): keep the list's own unit.
-                let (exact, approx) = raw_number.numeric_value(10, Digits::Default);
-                value = approx.or(exact);
-                unit = ctx.canonicalize(name).unwrap_or_else(|| name.to_string());
-            }
             let raw = Dimensionality::base_unit(BaseUnit::new(&unit));
             NumberParts {
                 raw_value: Some(raw_number),
                 unit: Some(unit),
                 raw_unit: Some(raw),
                 exact_value: Some(
-                    value.expect("to_parts returned neither exact nor approx value"),
+                    pretty
+                        .approx_value
+                        .or(pretty.exact_value)
+                        .expect("to_parts returned neither exact nor approx value"),
                 ),
                 ..Default::default()
             }
